@@ -53,9 +53,12 @@ def rule_get_type(ctx: Ctx, repo: Repo) -> None:
         args = res.fields["args"]
         if cls == "builtin:tuple":
             ok = isinstance(args, R) and args.kind == "tuple_of"
-            why = "tuple element types are not a tuple built from the elements"
+            why = f"tuple element types are not a tuple built from the elements: {str(args)[:120]}"
             if ok:
                 ok, why = comp_covers_all(args.fields["comp"], o, "elem_of", K(m))
+            elif isinstance(args, K) and isinstance(args.v, tuple):
+                # tuple(<generator helper interpreted eagerly>): the helper's loop over the representative element
+                ok, why = comp_covers_all(args, o, "elem_of", K(m))
             ctx.check(ok, "R-C04.1", w, "every element of a tuple contributes its own type, in position", construct=f"{lab}: {why}")
             continue
         wanted = [("key_of", 0), ("value_of", 1)] if cls == "mod:collections.defaultdict" else [("elem_of", 0)]
@@ -166,6 +169,17 @@ def rule_merge(ctx: Ctx, repo: Repo, tier: str) -> None:
     ctx.floor("R-C04.3", "shrink_typed_dict_types scenarios", n, 1000)
 
 
+def _shrunk_members(v: Any) -> Optional[List[V]]:
+    """the types handed to shrink_types in a `shrunk` record, whatever sequence carried them (a list, a tuple, a chain)"""
+    if isinstance(v, R) and v.kind == "shrunk":
+        of = v.fields["of"]
+        if isinstance(of, R) and of.kind == "list":
+            return list(of.fields["items"])
+        if isinstance(of, K) and isinstance(of.v, tuple):
+            return list(of.v)
+    return None
+
+
 def _uncovered(res: V, types: Dict[str, List[V]]) -> List[str]:
     out = []
     if isinstance(res, R) and res.kind == "typeddict":
@@ -177,14 +191,14 @@ def _uncovered(res: V, types: Dict[str, List[V]]) -> List[str]:
                     fields[k.v] = v
         for k, ts in types.items():
             f = fields.get(k)
-            have = list(f.fields["of"].fields["items"]) if isinstance(f, R) and f.kind == "shrunk" and isinstance(f.fields["of"], R) and f.fields["of"].kind == "list" else []
+            have = _shrunk_members(f) or []
             for t in ts:
                 if t not in have:
                     out.append(f"{k}:{t}")
     elif isinstance(res, R) and res.kind == "generic" and res.fields["origin"] == K("Dict"):
         args = res.fields["args"].v
         v = args[1] if len(args) == 2 else None
-        have = list(v.fields["of"].fields["items"]) if isinstance(v, R) and v.kind == "shrunk" and isinstance(v.fields["of"], R) and v.fields["of"].kind == "list" else []
+        have = _shrunk_members(v) or []
         for k, ts in types.items():
             for t in ts:
                 if t not in have:
@@ -204,8 +218,8 @@ def _merge_key(res: V, perm: Tuple[int, ...]) -> Any:
             return f"T{perm[int(idx)]}.{key}"
         return s
     def ms(v: V) -> Any:
-        if isinstance(v, R) and v.kind == "shrunk" and isinstance(v.fields["of"], R) and v.fields["of"].kind == "list":
-            return tuple(sorted(ren(x) for x in v.fields["of"].fields["items"])), repr(v.fields["limit"])
+        if _shrunk_members(v) is not None:
+            return tuple(sorted(ren(x) for x in _shrunk_members(v))), repr(v.fields["limit"])  # type: ignore[union-attr]
         return repr(v)
     if isinstance(res, R) and res.kind == "typeddict":
         out = []
